@@ -169,7 +169,7 @@ def strategy(tier):
     @st.composite
     def history(draw):
         n = draw(st.integers(1, 12 if thorough else 8))
-        pool = ("s1", "s1f", "s2.5", "a12", "a12", "a13", "a1", "d1", "d1", "d2", "da12", "da12", "da1", "k1", "k1", "k2", "none")
+        pool = ("s1", "s1f", "s2.5", "a12", "a12", "a13", "a1", "d1", "d1", "d2", "da12", "da12", "da1", "dx1", "dx1", "dax1", "k1", "k1", "k2", "none")
         return {
             "mode": "history",
             "cached": draw(st.integers(0, 3)) > 0,
@@ -279,6 +279,10 @@ def _arg(token):
     if token == "da12":
         return ({"x": np.array([1.0, 2.0])},), {}
     if token == "da1":
+        return ({"x": np.array([1.0])},), {}
+    if token == "dx1":  # a scalar record and a one-row batch with the same keys and "equal" values
+        return ({"x": 1.0},), {}
+    if token == "dax1":
         return ({"x": np.array([1.0])},), {}
     if token == "k1":
         return (1.0,), {"k": 2.0}
